@@ -234,6 +234,35 @@ fn replay_delta(beh: &J, maxseg: usize, bad: &mut Vec<String>) {
             _ => 0,
         }
     }
+    replay_delta_with(beh, maxseg, bad, dv)
+}
+
+fn replay_delta_ap(beh: &J, maxseg: usize, bad: &mut Vec<String>) {
+    // tokens map to an arithmetic progression, so that runs of equal (also negative) deltas arise
+    fn dv(t: &str) -> i64 {
+        match t {
+            "N" => 6,
+            "0" => 4,
+            "1" => 2,
+            _ => 0,
+        }
+    }
+    replay_delta_with(beh, maxseg, bad, dv)
+}
+
+fn replay_delta_neg(beh: &J, maxseg: usize, bad: &mut Vec<String>) {
+    fn dv(t: &str) -> i64 {
+        match t {
+            "N" => -2,
+            "0" => -4,
+            "1" => -6,
+            _ => -8,
+        }
+    }
+    replay_delta_with(beh, maxseg, bad, dv)
+}
+
+fn replay_delta_with(beh: &J, maxseg: usize, bad: &mut Vec<String>, dv: fn(&str) -> i64) {
     let mut col: DeltaColumn<i64> = DeltaColumn::with_max_segments(maxseg);
     for (si, step) in beh.as_array().unwrap().iter().enumerate() {
         let op = &step["op"];
@@ -351,7 +380,7 @@ fn replay(args: &[String]) {
     type F = fn(&J, usize, &mut Vec<String>);
     let kinds: Vec<(&str, F)> = vec![
         ("u64", replay_u64), ("opt_u64", replay_opt), ("i64", replay_i64), ("bool", replay_bool), ("string", replay_str),
-        ("bytes", replay_bytes), ("prefix_u64", replay_prefix), ("delta_i64", replay_delta), ("raw", replay_raw),
+        ("bytes", replay_bytes), ("prefix_u64", replay_prefix), ("delta_i64", replay_delta), ("delta_ap", replay_delta_ap), ("delta_neg", replay_delta_neg), ("raw", replay_raw),
     ];
     for line in text.lines().filter(|l| !l.trim().is_empty()) {
         let beh: J = serde_json::from_str(line).unwrap();
